@@ -23,7 +23,7 @@
 #define MAXCALL   24
 
 typedef struct { uint8_t size; uint8_t type; uint32_t value; } GDef;
-typedef struct { const char *name; int n; GDef g[MAXG]; int alias; int gap; } Layout;   /* gap: sub-index that is NOT implemented (sparse 1010h/1011h), 0 = none */
+typedef struct { const char *name; int n; GDef g[MAXG]; int alias; int gap; int cut; } Layout;   /* cut 1: 1011h implements sub-index 1 only (linked to group 1), cut 2: 1010h does - the two objects differ in their highest sub-index */   /* gap: sub-index that is NOT implemented (sparse 1010h/1011h), 0 = none */
 #define TN CO_RESET_NODE
 #define TC CO_RESET_COM
 static const Layout LAY[] = {
@@ -38,6 +38,8 @@ static const Layout LAY[] = {
     { "4 groups: 5B com E | 64B node disabled | 2B com AE | 1B node E", 4, { {5, TC, CO_PARA___E}, {64, TN, CO_PARA____}, {2, TC, CO_PARA__AE}, {1, TN, CO_PARA___E} }, 0 },
     { "3 groups at sub 2, 4, 5 (sub 3 not implemented): 2B node E | 5B com E | 1B node E", 3, { {2, TN, CO_PARA___E}, {5, TC, CO_PARA___E}, {1, TN, CO_PARA___E} }, 0, 3 },
     { "2 groups at sub 3, 4 (sub 2 not implemented): 5B com E | 2B node E", 2, { {5, TC, CO_PARA___E}, {2, TN, CO_PARA___E} }, 0, 2 },
+    { "3 groups in 1010h (all | 2B node E | 5B com E | 1B node E), 1011h has sub-index 1 only (group 1)", 3, { {2, TN, CO_PARA___E}, {5, TC, CO_PARA___E}, {1, TN, CO_PARA___E} }, 0, 0, 1 },
+    { "2 groups in 1011h (all | 5B com E | 2B node E), 1010h has sub-index 1 only (group 1)", 2, { {5, TC, CO_PARA___E}, {2, TN, CO_PARA___E} }, 0, 0, 2 },
 };
 static int PSUB(int sub);
 #define N_LAY ((int)(sizeof LAY / sizeof LAY[0]))
@@ -122,18 +124,18 @@ static void build_world(int cfg)
     ParaAll.Type = CO_RESET_INVALID; ParaAll.Ident = (void *)"all"; ParaAll.Value = CO_PARA___E;
 
     od_init(&b, OD, 48); od_mandatory(&b, &ErrReg); od_sdo_server0(&b);
-    od_add(&b, CO_KEY(0x1010, 0, CO_OBJ_D___R_), CO_TPARA_STORE,   (CO_DATA)PSUB(NSUB));
-    od_add(&b, CO_KEY(0x1011, 0, CO_OBJ_D___R_), CO_TPARA_RESTORE, (CO_DATA)PSUB(NSUB));
+    od_add(&b, CO_KEY(0x1010, 0, CO_OBJ_D___R_), CO_TPARA_STORE,   (CO_DATA)(LY->cut == 2 ? 1 : PSUB(NSUB)));
+    od_add(&b, CO_KEY(0x1011, 0, CO_OBJ_D___R_), CO_TPARA_RESTORE, (CO_DATA)(LY->cut == 1 ? 1 : PSUB(NSUB)));
     if (NG == 1) {
         od_add(&b, CO_KEY(0x1010, 1, CO_OBJ_____RW), CO_TPARA_STORE,   (CO_DATA)&Para[0]);
         od_add(&b, CO_KEY(0x1011, 1, CO_OBJ_____RW), CO_TPARA_RESTORE, (CO_DATA)&Para[0]);
     } else {
         CO_PARA *all = LY->alias ? &Para[0] : &ParaAll;
-        od_add(&b, CO_KEY(0x1010, 1, CO_OBJ_____RW), CO_TPARA_STORE,   (CO_DATA)all);
-        od_add(&b, CO_KEY(0x1011, 1, CO_OBJ_____RW), CO_TPARA_RESTORE, (CO_DATA)all);
+        od_add(&b, CO_KEY(0x1010, 1, CO_OBJ_____RW), CO_TPARA_STORE,   (CO_DATA)(LY->cut == 2 ? &Para[0] : all));
+        od_add(&b, CO_KEY(0x1011, 1, CO_OBJ_____RW), CO_TPARA_RESTORE, (CO_DATA)(LY->cut == 1 ? &Para[0] : all));
         for (g = 0; g < NG; g++) {
-            od_add(&b, CO_KEY(0x1010, PSUB(2 + g), CO_OBJ_____RW), CO_TPARA_STORE,   (CO_DATA)&Para[g]);
-            od_add(&b, CO_KEY(0x1011, PSUB(2 + g), CO_OBJ_____RW), CO_TPARA_RESTORE, (CO_DATA)&Para[g]);
+            if (LY->cut != 2) od_add(&b, CO_KEY(0x1010, PSUB(2 + g), CO_OBJ_____RW), CO_TPARA_STORE,   (CO_DATA)&Para[g]);
+            if (LY->cut != 1) od_add(&b, CO_KEY(0x1011, PSUB(2 + g), CO_OBJ_____RW), CO_TPARA_RESTORE, (CO_DATA)&Para[g]);
         }
     }
     XDrv = W_IfDrv; XDrv.Nvm = &XNvm;
@@ -202,7 +204,14 @@ static int check_writes(const char *ctx, int sub)
         }
     return 0;
 }
-static int addressed(int sub, int g) { return NG == 1 ? 1 : (sub == 1 ? 1 : g == sub - 2); }
+static uint16_t CUR_IDX;      /* object the request under judgement was written to */
+static int sub_exists(uint16_t idx, int sub) { return !((LY->cut == 1 && idx == 0x1011 && sub > 1) || (LY->cut == 2 && idx == 0x1010 && sub > 1)); }
+static int addressed(int sub, int g)
+{
+    if (NG == 1) return 1;
+    if ((LY->cut == 1 && CUR_IDX == 0x1011) || (LY->cut == 2 && CUR_IDX == 0x1010)) return sub == 1 && g == 0;     /* the object's only sub-index links group 1 */
+    return sub == 1 ? 1 : g == sub - 2;
+}
 /* logical sub-index (1 = all, 2.. = groups) -> sub-index in the dictionary; a sparse layout leaves one sub-index out */
 static int PSUB(int sub) { return sub + (LY->gap && sub >= LY->gap ? 1 : 0); }
 static int enabled(int g) { return (LY->g[g].value & CO_PARA___E) != 0; }
@@ -245,6 +254,7 @@ static void do_save(int sub)
 {
     char ctx[64]; uint32_t code; uint8_t flt[MAXG]; int all_en = 1, g;
     snprintf(ctx, sizeof ctx, "'save' to 1010h:%d", sub);
+    CUR_IDX = 0x1010;
     step_begin();
     int r = sdo_dl(0x1010, sub, 0x23, SIG_SAVE, &code);
     step_end();
@@ -282,6 +292,7 @@ static void do_load(int sub)
 {
     char ctx[64]; uint32_t code; int cnt[MAXG], all_en = 1, g;
     snprintf(ctx, sizeof ctx, "'load' to 1011h:%d", sub);
+    CUR_IDX = 0x1011;
     step_begin();
     int r = sdo_dl(0x1011, sub, 0x23, SIG_LOAD, &code);
     step_end();
@@ -336,6 +347,7 @@ static void after_load(const char *ctx, const char *sig, int must_node, int must
     if (X.nshort && X.err == CO_ERR_NONE) { FAIL("para-fault-ignored", "%s: an NVM read returned a short count but CONodeGetErr() reports no error", ctx); return; }
     for (g = 0; g < NG; g++) {
         int must = LY->g[g].type == CO_RESET_NODE ? must_node : must_com;
+        if (LY->cut == 2 && g > 0) continue;               /* not linked in 1010h: such a group is neither stored nor loaded, its RAM stays as it is */
         if (flt[g]) memcpy(&M.ram[roff[g]], &RamArena[roff[g]], (size_t)gsz[g]);          /* content after a failed read is not fixed */
         else if (must) {
             if (M.has_stored[g] && memcmp(&RamArena[roff[g]], M.stored[g], (size_t)gsz[g])) {
@@ -391,9 +403,9 @@ static void ev_str(int e, char *b, size_t n)
 }
 static void do_event(int e, int stepno)
 {
-    if (e < NSUB) do_save(1 + e);
+    if (e < NSUB) { if (sub_exists(0x1010, 1 + e)) do_save(1 + e); else do_refused(0x1010, 1 + e, 0x23, SIG_SAVE); }     /* a sub-index the object does not implement: abort, nothing changes */
     else if (e < 2 * NSUB) do_refused(0x1010, 1 + e - NSUB, 0x23, SIG_LOAD);        /* the other object's signature */
-    else if (e < 3 * NSUB) do_load(1 + e - 2 * NSUB);
+    else if (e < 3 * NSUB) { if (sub_exists(0x1011, 1 + e - 2 * NSUB)) do_load(1 + e - 2 * NSUB); else do_refused(0x1011, 1 + e - 2 * NSUB, 0x23, SIG_LOAD); }
     else if (e < 4 * NSUB) do_refused(0x1011, 1 + e - 3 * NSUB, 0x23, SIG_SAVE);
     else if (e < 4 * NSUB + NG) do_ramchg(e - 4 * NSUB, stepno);
     else do_nmt_reset(e == 4 * NSUB + NG + 1);
